@@ -4,6 +4,8 @@ import (
 	"bytes"
 	"encoding/json"
 	"fmt"
+	"os"
+	"path/filepath"
 	"sort"
 	"testing"
 
@@ -44,7 +46,7 @@ func TestMain(m *testing.M) {
 }
 
 type stats struct {
-	lookups, nonEmpty, mapForm, reorgs, toggles, emptiedAndRepaid, restored, foreign int
+	lookups, nonEmpty, mapForm, reorgs, toggles, emptiedAndRepaid, restored, foreign, cutSaves int
 }
 
 // addrOf builds the address object for an address-shaped script with the reference decoder's view.
@@ -227,8 +229,35 @@ func run(c Case, st *stats) (*sim.Sim, error) {
 				if err := wallet.SaveBalances(); err == nil {
 					wallet.Disable()
 					curMin = newMin
-					common.ApplyBalMinVal() // (start-up of the new process)
+					// now and then the save was cut short (the process died / the disk was full while the index was
+					// written at shutdown): one of the files is shorter than it should be, empty or missing.  The start
+					// then has to notice and rebuild the index from the unspent set - never run with a partial one.
+					if op.Arg%5 == 1 {
+						if files, _ := filepath.Glob(filepath.Join(common.GocoinHomeDir, wallet.BALANCES_SUBDIR, "*", "*")); len(files) > 0 {
+							sort.Strings(files)
+							fn := files[(op.Arg/5)%len(files)]
+							if fi, e := os.Stat(fn); e == nil {
+								sz := fi.Size()
+								cut := []int64{0, 1, sz / 2, sz - 1, sz - 36, sz / 3, -1}[(op.Arg/7)%7]
+								if cut < 0 || sz == 0 {
+									os.Remove(fn)
+									st.cutSaves++
+								} else if cut < sz {
+									os.Truncate(fn, cut)
+									st.cutSaves++
+									if os.Getenv("C17_DEBUG") != "" {
+										fmt.Fprintln(os.Stderr, "C17_DEBUG cut", fn, "from", sz, "to", cut)
+									}
+								}
+							}
+						}
+					}
+					wallet.VerifProcessRestart() // (the new process starts without any index in memory)
+					common.ApplyBalMinVal()      // (start-up of the new process)
 					if err := wallet.LoadBalances(); err != nil {
+						if os.Getenv("C17_DEBUG") != "" {
+							fmt.Fprintln(os.Stderr, "C17_DEBUG LoadBalances:", err)
+						}
 						wallet.LoadBalancesFromUtxo()
 					} else {
 						st.restored++
@@ -296,7 +325,7 @@ func genCase(t *rapid.T, p sim.Profile) Case {
 	for _, op := range c.Sim.Ops {
 		if rapid.IntRange(0, 14).Draw(t, "toggle") == 0 {
 			ops = append(ops, sim.Op{Kind: rapid.SampledFrom([]string{"wallet_off", "wallet_on", "wallet_on", "wallet_restart", "wallet_restart"}).Draw(t, "which"),
-				Arg: rapid.IntRange(0, 17).Draw(t, "restartarg")})
+				Arg: rapid.IntRange(0, 9999).Draw(t, "restartarg")})
 		}
 		ops = append(ops, op)
 	}
@@ -358,6 +387,9 @@ func TestBalances(t *testing.T) {
 		}
 		if st.toggles > 1 {
 			r.Class("index_toggled")
+		}
+		if st.cutSaves > 0 {
+			r.Class("saved_index_cut_short_before_the_restart")
 		}
 		if st.restored > 0 {
 			r.Class("index_saved_and_restored")
